@@ -1,5 +1,5 @@
 (* C06: link tables stay consistent with the history of link events. *)
-From Bifrost Require Import Lib.Base Link.Model Link.Maps Link.Proofs.
+From Bifrost Require Import Lib.Base Link.Model Link.Maps Link.Proofs Link.Quic.
 
 (* The model is the controller LTS of Link/Model.v: [run U me h] is the state of
    the tables after the history [h] of lock regions (any interleaving of
@@ -110,6 +110,44 @@ Theorem c06_without_broadcast_refuted :
   In 0%nat (st_closed (run_gen stale_univ false (init 1) stale_history)).
 Proof. exact lost_link_still_yielded_without_broadcast. Qed.
 Print Assumptions c06_without_broadcast_refuted.
+
+(* ---- composed with the quic transport's own address table (quic.go) ----
+   [emitted U nc qinit h] are the controller events produced by a transport
+   history h of HandleSession / link-closed callbacks; nc = the controller is
+   only told about the loss of a link that is still registered at its address
+   (regenerated from handleLinkLost). *)
+
+(* if every closed link is reported to the controller, a link whose close
+   callback has run is never reported again, whatever usurped what *)
+Theorem c06_transport_closed_not_reported_when_always_told : forall U me h h' p r,
+  needs_current = false ->
+  ~ In (Session p) h' ->
+  ~ In p (peer_links r (run U me (emitted U needs_current qinit (h ++ Closed p :: h')))).
+Proof.
+  intros U me h h' p r Hnc. rewrite Hnc.
+  exact (closed_link_not_reported_when_always_told U lost_broadcasts me h h' p r).
+Qed.
+Print Assumptions c06_transport_closed_not_reported_when_always_told.
+
+(* if only still-registered links are reported (the code as it is when
+   quic_lost_needs_current = 1): a link usurped at its address by a DIFFERENT
+   peer is closed by the transport and reported by the controller for ever *)
+Theorem c06_usurped_by_other_peer_refuted_when_only_current_told :
+  let evs := emitted usurp_univ true qinit usurp_history in
+  evs = [Est 0%nat; Est 1%nat]
+  /\ In 0%nat (q_closed (fold_left (fun t a => fst (qstep usurp_univ true t a)) usurp_history qinit))
+  /\ get_peer_links usurp_univ (run_gen usurp_univ true (init 1) evs) 2 = [0%nat]
+  /\ yielded usurp_univ true 1 evs 1 2 = [0%nat].
+Proof. exact usurped_link_still_reported_when_only_current_told. Qed.
+Print Assumptions c06_usurped_by_other_peer_refuted_when_only_current_told.
+
+(* the same peer reconnecting from the same address (same uuid) is consistent either way *)
+Theorem c06_same_peer_usurp_consistent : forall nc,
+  let U : nat -> link := fun _ => mkLink 100 7 1 2 in
+  let evs := emitted U nc qinit [Session 0%nat; Session 1%nat; Closed 0%nat] in
+  get_peer_links U (run_gen U true (init 1) evs) 2 = [1%nat].
+Proof. exact same_peer_usurp_consistent. Qed.
+Print Assumptions c06_same_peer_usurp_consistent.
 
 (* non-vacuity: two links sharing a uuid, a third to another peer; replacement,
    a late loss of the replaced link, and a real loss *)
